@@ -21,10 +21,12 @@ import (
 // real loop (a change inside run() shows up here).
 
 type c01ConfStart struct {
-	name string
-	side side
-	pre  []c01Op
-	ops  []c01Op
+	name   string
+	side   side
+	pre    []c01Op
+	ops    []c01Op
+	depthQ int // 0: the leg's default history length
+	depthT int
 }
 
 func c01ConfStarts() []c01ConfStart {
@@ -41,7 +43,14 @@ func c01ConfStarts() []c01ConfStart {
 		c01OpCleanup(1, false), c01OpCleanup(3, true), c01OpGoAway(),
 	}
 	o2 := []c01Op{c01OpOpen(), c01OpOpen()}
+	// connection window exhausted with two streams queued (each put is followed by
+	// quiescence): stream 1 sends 40005, stream 3 sends 25530 and the connection
+	// window is 0; then both get one more message
+	starvedC := []c01Op{c01OpOpen(), c01OpOpen(), c01OpData(1, 40000, false), c01OpData(3, 40000, false), c01OpData(1, 40000, false), c01OpData(3, 40000, false)}
+	grants := []c01Op{c01OpWUConn(16384), c01OpWUConn(1), c01OpWUConn(65535), c01OpWUStr(3, 16384), c01OpData(1, 9, false), c01OpSettings(1<<20, 0)}
 	return []c01ConfStart{
+		{name: "client/conn-starved", side: clientSide, pre: starvedC, ops: append(append([]c01Op(nil), grants...), c01OpCleanup(3, true)), depthQ: 5, depthT: 6},
+		{name: "server/conn-starved", side: serverSide, pre: starvedC, ops: append(append([]c01Op(nil), grants...), c01OpTrailers(3, false)), depthQ: 5, depthT: 6},
 		{name: "client/fresh", side: clientSide, ops: append([]c01Op{c01OpOpenBig()}, cl...)},
 		{name: "client/2streams", side: clientSide, pre: o2, ops: cl[1:]},
 		{name: "server/fresh", side: serverSide, ops: append([]c01Op{c01OpOpenBig()}, sv...)},
@@ -139,7 +148,7 @@ func c01ConfReal(t *testing.T, st *c01ConfStart, hist []c01Op, batch int, stats 
 // c01ConfStep produces the reference log with the step-wise driver: the same
 // ops, an idle event wherever the real run waited for quiescence. perms selects
 // the re-activation order for every settings op (see reorderActivated).
-func c01ConfStep(st *c01ConfStart, hist []c01Op, batch int, perms []int) (log []c01Frame, ok bool, nRaise int) {
+func c01ConfStep(st *c01ConfStart, hist []c01Op, batch int, perms []int) (log []c01Frame, ok bool, nRaise int, fails []c01ConfFail) {
 	w := c01NewWorld(st.side, &c01Stats{}, false)
 	defer w.release()
 	defer func() {
@@ -170,14 +179,17 @@ func c01ConfStep(st *c01ConfStart, hist []c01Op, batch int, perms []int) (log []
 			}
 		}
 		if !w.apply(op) {
-			return nil, false, nRaise
+			return nil, false, nRaise, nil
 		}
 		if batch > 0 && (i+1)%batch == 0 {
 			w.apply(c01OpIdle())
 		}
 	}
 	w.apply(c01OpIdle())
-	return append([]c01Frame(nil), w.log...), true, nRaise
+	for _, f := range w.fails {
+		fails = append(fails, c01ConfFail{f.Prop, f.Key, f.Desc})
+	}
+	return append([]c01Frame(nil), w.log...), true, nRaise, fails
 }
 
 func c01LogsEqual(a, b []c01Frame) bool {
@@ -194,25 +206,25 @@ func c01LogsEqual(a, b []c01Frame) bool {
 
 // c01ConfMatches: does the real log equal the step-wise log for some legal
 // re-activation order?
-func c01ConfMatches(st *c01ConfStart, hist []c01Op, batch int, real []c01Frame) (bool, []c01Frame) {
-	ref, ok, nr := c01ConfStep(st, hist, batch, nil)
+func c01ConfMatches(st *c01ConfStart, hist []c01Op, batch int, real []c01Frame) (bool, []c01Frame, []c01ConfFail) {
+	ref, ok, nr, rf := c01ConfStep(st, hist, batch, nil)
 	if !ok {
-		return false, nil
+		return false, nil, nil
 	}
 	if c01LogsEqual(ref, real) {
-		return true, ref
+		return true, ref, rf
 	}
 	if nr > 1 {
 		for p0 := 0; p0 < 6; p0++ {
 			for p1 := 0; p1 < 6; p1++ {
-				alt, ok2, _ := c01ConfStep(st, hist, batch, []int{p0, p1})
+				alt, ok2, _, af := c01ConfStep(st, hist, batch, []int{p0, p1})
 				if ok2 && c01LogsEqual(alt, real) {
-					return true, alt
+					return true, alt, af
 				}
 			}
 		}
 	}
-	return false, ref
+	return false, ref, rf
 }
 
 func TestVerif_C01_Conform(t *testing.T) {
@@ -226,7 +238,7 @@ func TestVerif_C01_Conform(t *testing.T) {
 		batches = []int{1, 0, 2}
 	}
 	for _, p := range c01Props {
-		r.Rule(p, fmt.Sprintf("every event history of length 1..%d over a %d-%d-op sub-alphabet of leg c01_loopy (open, openBig, data, end, trailers, earlyAbort, wuConn, wuStr, settings, cleanup, incomingGoAway, goAway), from a fresh transport and from a transport with two open streams, client and server side, is put into a real controlBuffer consumed by the REAL loopyWriter.run() goroutine in a synctest bubble (GOMAXPROCS=1), once waiting for quiescence after every put (k=1), once after all puts (and after every 2nd put in the thorough tier); after every wait the bytes on the conn are parsed by the independent framer and checked with the same C01/C02/C03 ledgers as in leg c01_loopy (round-robin only for k=1), and for k=1 the frame log must be identical to the log the step-wise driver produces for item,idle,item,idle,... (ENGINE-ERROR otherwise: the model would no longer mirror run()). A history in which every op is applicable is a non-trivial case (prefixes are distinct histories).", depth, len(starts[1].ops), len(starts[2].ops)))
+		r.Rule(p, fmt.Sprintf("every event history of length 1..%d over a 14-17-op sub-alphabet of leg c01_loopy (open, openBig, data, end, trailers, earlyAbort, wuConn, wuStr, settings, cleanup, incomingGoAway, goAway), from a fresh transport and from a transport with two open streams, and every history of length 1..%d over 7 ops (wuConn(1|16384|65535), wuStr, data, settings raise, cleanup/trailers) from a state with two streams queued behind an exhausted connection window, client and server side, is put into a real controlBuffer consumed by the REAL loopyWriter.run() goroutine in a synctest bubble (GOMAXPROCS=1), once waiting for quiescence after every put (k=1), once after all puts (and after every 2nd put in the thorough tier); after every wait the bytes on the conn are parsed by the independent framer and checked with the same C01/C02/C03 ledgers as in leg c01_loopy (round-robin only for k=1). The frame log is compared with the log the step-wise driver produces for item,idle,item,idle,...: if they differ and either output violates an oracle, that is reported as a violation of the property concerned; if they differ for k=1 and both satisfy every oracle it is an ENGINE-ERROR (the model would no longer mirror run()). A history in which every op is applicable is a non-trivial case (prefixes are distinct histories).", depth, r.Pick(5, 6)))
 		r.Assume(p, "conformance leg: with GOMAXPROCS=1 and asynchronous preemption off, run() consumes a batch of k puts as item,...,item,idle; divergence from the step-wise log is an ENGINE-ERROR only for k=1 (deterministic under any scheduler), for other batchings it is only counted; the order in which applySettings re-activates several waiting streams is random there, so the log is compared with the step-wise log of every such order")
 	}
 	if r.ReplayFile() != "" {
@@ -267,7 +279,7 @@ func TestVerif_C01_Conform(t *testing.T) {
 		}
 		return
 	}
-	var nHist, nRuns, nIdentical, nDiverged, nBatchInapplicable, nExited int64
+	var nHist, nRuns, nIdentical, nDiverged, nDivergedViolating, nBatchInapplicable, nExited int64
 	sh, _ := r.Shard()
 	failSeen := map[string]bool{}
 	sampled := 0
@@ -327,24 +339,46 @@ func TestVerif_C01_Conform(t *testing.T) {
 				rp := c01ConfReplay{Start: st.name, Ops: names, Batch: b}
 				r.Violation(f.prop, c01ConfKey(st.name, b, f.key, names), f.desc+"\n  history: "+strings.Join(names, " ; ")+fmt.Sprintf("\n  batching: %d\n  frames: %v", b, res.log), rp)
 			}
-			same, ref := c01ConfMatches(st, hist, b, res.log)
+			// Classification of a divergence between the real loop and the step-wise
+			// driver: if either output violates an oracle, that is a verdict about the
+			// code (reported as a violation: above for the real loop, here for the
+			// driver); only when both outputs satisfy every oracle is the binding between
+			// driver and run() what is broken (ENGINE-ERROR, k=1 only).
+			same, ref, refFails := c01ConfMatches(st, hist, b, res.log)
+			if !same {
+				for _, f := range refFails {
+					cls := f.prop + "/stepwise:" + f.key
+					if failSeen[cls] {
+						continue
+					}
+					failSeen[cls] = true
+					rp := c01ConfReplay{Start: st.name, Ops: names, Batch: b}
+					r.Violation(f.prop, c01ConfKey(st.name, b, "stepwise:"+f.key, names), f.desc+"\n  (step-wise driven loopy on the same history; the real run() loop wrote "+fmt.Sprint(res.log)+")\n  history: "+strings.Join(names, " ; "), rp)
+				}
+			}
 			switch {
 			case !counted:
 			case same:
 				nIdentical++
-			case b == 1 && len(res.fails) == 0:
+			case len(res.fails) > 0 || len(refFails) > 0:
+				nDivergedViolating++
+			case b == 1:
 				r.EngineError("c01_conform %s %v: the real run() loop wrote %v but the step-wise driver of leg c01_loopy (item,idle,...) wrote %v: the model no longer mirrors run()", st.name, names, res.log, ref)
 			default:
 				nDiverged++
 			}
-			if sampled < 3 && len(hist) == depth && b == 1 && len(res.log) > 6 {
+			if sampled < 3 && len(hist) >= depth && b == 1 && len(res.log) > 6 {
 				sampled++
 				for _, p := range c01Props {
 					r.Sample(p, map[string]any{"start": st.name, "history": names, "frames": fmt.Sprint(res.log)})
 				}
 			}
 		}
-		if terminal || len(hist) >= depth {
+		d := depth
+		if sd := r.Pick(st.depthQ, st.depthT); sd > 0 {
+			d = sd
+		}
+		if terminal || len(hist) >= d {
 			return
 		}
 		for _, op := range st.ops {
@@ -371,6 +405,7 @@ func TestVerif_C01_Conform(t *testing.T) {
 		r.AddInt(p, "conform_runs_of_real_loop", nRuns)
 		r.AddInt(p, "conform_log_identical_to_stepwise_model", nIdentical)
 		r.AddInt(p, "conform_batched_log_differs_from_stepwise_model", nDiverged)
+		r.AddInt(p, "conform_log_differs_and_an_oracle_is_violated", nDivergedViolating)
 		r.AddInt(p, "conform_batching_inapplicable", nBatchInapplicable)
 		r.AddInt(p, "conform_histories_ending_in_loopy_exit", nExited)
 		for k, v := range stats.export() {
